@@ -1,7 +1,7 @@
 //! Driver families for the pure functions: header views (C18) and enum conversions (C19).
 
 use crate::drivers::*;
-use serde_json::{json, Value};
+use serde_json::json;
 
 fn fields_of(view: &str) -> &'static [&'static str] {
     match view {
@@ -143,12 +143,57 @@ pub fn headers(d: &mut D) {
 }
 
 pub fn conv(d: &mut D) {
+    let sweep = |d: &mut D, rev: bool| {
+        for i in 0..=255u64 {
+            let b = if rev { 255 - i } else { i };
+            d.ex(json!({"op":"conv","enum":"command","byte":b}));
+            d.ex(json!({"op":"conv","enum":"msgtype","byte":b}));
+        }
+        for i in 0..=5u64 {
+            let b = if rev { 5 - i } else { i };
+            d.ex(json!({"op":"conv","enum":"completion","byte":b}));
+        }
+    };
+    // a fresh process: every byte once, in order
+    sweep(d, false);
+    // The conversions are functions of the byte alone: the same answers after the library has been busy, whatever
+    // it was busy with.  Every command code arrives in a request (and in a response), every message type in a
+    // packet, every completion code in a response; the byte just seen, its neighbours and the same byte twice are
+    // converted right afterwards.
+    d.std_ctxs();
+    let pkt = |ty: u8, body: &[u8]| -> Vec<u8> {
+        let mut p = vec![0x23u8 << 1, 0x0F, 0, (0x10 << 1) | 1, 0x01, 0x23, 0x10, 0xC8, ty];
+        p.extend_from_slice(body);
+        p.push(0);
+        p[2] = (p.len() - 4) as u8;
+        crate::drivers::fix_pec(&mut p);
+        p
+    };
     for b in 0..=255u64 {
+        let cmd = b as u8;
+        let data: &[u8] = match cmd {
+            1 => &[0, 9],
+            4 | 6 | 7 => &[0],
+            8 => &[0, 1, 2],
+            _ => &[],
+        };
+        let mut body = vec![0x80 | (cmd & 0x1F), cmd];
+        body.extend_from_slice(data);
+        let rq = pkt(0x00, &body);
+        d.process(0, &rq);
         d.ex(json!({"op":"conv","enum":"command","byte":b}));
+        d.ex(json!({"op":"conv","enum":"command","byte":b}));
+        d.ex(json!({"op":"conv","enum":"command","byte":(b + 1) % 256}));
+        let rs = pkt(0x00, &[cmd & 0x1F, cmd, (b % 6) as u8, 0, 0, 0]);
+        d.decode(1, &rs);
+        d.ex(json!({"op":"conv","enum":"completion","byte":b % 6}));
+        d.ex(json!({"op":"conv","enum":"command","byte":b}));
+        let other = pkt(cmd, &[1, 2, 3, 4, 5, 6]);
+        d.process(0, &other);
         d.ex(json!({"op":"conv","enum":"msgtype","byte":b}));
+        d.ex(json!({"op":"conv","enum":"msgtype","byte":b}));
+        d.ex(json!({"op":"conv","enum":"msgtype","byte":(b + 128) % 256}));
     }
-    for b in 0..=5u64 {
-        d.ex(json!({"op":"conv","enum":"completion","byte":b}));
-    }
-    let _: Option<Value> = None;
+    // ... and every byte again, in the opposite order
+    sweep(d, true);
 }
